@@ -188,6 +188,11 @@ def build_exception(spec):
         args[i] = bytes.fromhex(args[i])
     if "group" in sp:
         args = [args[0], [build_exception(s) for s in sp["group"]]]
+    if "os_filename" in sp:
+        # the three-argument form (errno, strerror, filename): args keeps the first two, the file name is an attribute of its own;
+        # a file name need not be text (bytes paths, pathlib)
+        import pathlib
+        args = args[:2] + [{"bytes": b"/var/tmp/no such \xff file", "path": pathlib.PurePosixPath("/var/tmp/no such file")}[sp["os_filename"]]]
     x = cls(*args, **(sp.get("kw") or {}))
     for k in sorted(spec.get("attrs") or {}):
         setattr(x, k, spec["attrs"][k])
@@ -655,6 +660,8 @@ def run_live_case(case):
     p = live.proxy(s.uri(OBJ_ID_FALLBACK if case.get("fallback") else OBJ_ID), serializer=ser, timeout=HANG_GUARD_S)
     scope = live.ConfigScope(DETAILED_TRACEBACK=bool(case.get("detailed", False)))
     scope.__enter__()
+    # (a daemon whose annotations() hook adds annotations to every reply, error replies included)
+    s.daemon.v_annotations = (lambda: {"VSRV": b"annotation of the daemon", "VSR2": b""}) if case.get("daemon_ann") else None
     try:
         out = _perform(p, case)
         want_good = 0 if kind in ("call", "getattr", "setattr", "batch-first") else case.get("k", 0)
@@ -1047,6 +1054,9 @@ def spec_strategy(draw, with_local=False):
     if ns == "builtins":
         if name in OS_FAMILY and shape < 6:
             args = [draw(st.one_of(st.integers(0, 140), st.integers(-5, 10 ** 6)))] + [draw(st.text(max_size=5)) for _ in range(draw(st.integers(1, 2)))]
+            if shape == 0:
+                args = args[:2]
+                special = {"os_filename": draw(st.sampled_from(["bytes", "path"]))}
         elif name == "UnicodeEncodeError" and shape < 8:
             args = [draw(st.text(alphabet="asciutf-816", max_size=5)), draw(st.text(max_size=5)), draw(st.integers(0, 3)), draw(st.integers(0, 5)), draw(st.text(max_size=5))]
         elif name == "UnicodeTranslateError" and shape < 8:
@@ -1088,13 +1098,24 @@ def case_strategy(draw, servertype, ser):
         spec["special"] = {"unser": ["socket", "lambda", "object", "slots-unset"][unser], "where": "attr"}
     elif unser == 4 and spec["special"] is None and spec["ns"] != "local":
         # text that json / msgpack cannot encode (serpent and marshal can): as the message itself, as a further argument, as an attribute
-        spec["special"] = {"unser": "surrogate", "where": draw(st.sampled_from(["message", "message", "arg", "attr"] if spec["args"] else ["message", "attr"]))}
+        where = draw(st.sampled_from(["message", "message", "arg", "attr"] if spec["args"] else ["message", "attr"]))
+        if where == "message":
+            # (only for classes that can be rebuilt from one text argument: the receiver constructs the exception from its args)
+            try:
+                ok = lookup_class(spec["ns"], spec["cls"])("probe").args == ("probe",)
+            except Exception:
+                ok = False
+            if not ok:
+                where = "attr"
+        spec["special"] = {"unser": "surrogate", "where": where}
     case = {"level": "live", "servertype": servertype, "ser": ser, "kind": kind,
             "k": k if kind in ("batch-middle", "batch-last", "stream") else 0, "spec": spec}
     if detailed:
         case["detailed"] = True
     if draw(st.integers(0, 3)) == 0:
         case["fallback"] = True         # the target's class also defines __getattr__
+    if draw(st.integers(0, 2)) == 0:
+        case["daemon_ann"] = True
     return case
 
 
@@ -1142,6 +1163,8 @@ def _labels(case):
             l.append("config:DETAILED_TRACEBACK")
         if case.get("fallback"):
             l.append("target-class-defines-__getattr__")
+        if case.get("daemon_ann"):
+            l.append("error-reply-carries-daemon-annotations")
         d = int(spec.get("depth", 0))
         l.append("raised-%s-frames-below-the-member" % ("0" if d == 0 else "1-9" if d < 10 else "50+"))
     sp = spec.get("special") or {}
